@@ -169,6 +169,7 @@ def finish(ctx, level_note, assumptions, t0, explanation, exhaustive=False, extr
             "known_findings_reported": [f.key for f, _ in known_hits],
             "unlisted_findings": [f.key for f in violations],
             "source_sha256": ctx.m.digest,
+            "normalisation": {k: (len(v) if isinstance(v, list) else v) for k, v in getattr(ctx.m, "normalisation", {}).items()},
             "notes": ctx.notes,
         },
         "assumptions": assumptions,
